@@ -9,6 +9,7 @@ ifeq ($(flavour),asan)
 SAN := -fsanitize=address,undefined -fno-sanitize-recover=all -fsanitize-ignorelist=$(CURDIR)/sim/ubsan_ignore.txt
 else
 SAN := -fsanitize=thread
+RTDEF := -DSIM_NO_NEW_REPLACEMENT
 endif
 COV := -fsanitize-coverage=trace-pc-guard
 LDFLAGS := $(SAN) -lpugixml -pthread -Wl,--wrap=__cxa_guard_acquire -Wl,--wrap=__cxa_guard_release -Wl,--wrap=__cxa_guard_abort
@@ -35,7 +36,7 @@ $(B)/lib_%.o: $(REPO)/src/%.cpp Makefile sim/ubsan_ignore.txt
 # the runtime defines the coverage callbacks and the scheduler hand-off: no coverage instrumentation, no sanitizer
 $(B)/rt_%.o: sim/%.cpp Makefile
 	@mkdir -p $(dir $@)
-	$(CXX) -std=c++17 -g -O1 -Isim -fno-omit-frame-pointer -MMD -MP -c $< -o $@
+	$(CXX) -std=c++17 -g -O1 -Isim $(RTDEF) -fno-omit-frame-pointer -MMD -MP -c $< -o $@
 
 clean:
 	rm -rf build
